@@ -8,7 +8,10 @@ Ops_small == {"iden", "unit", "witness", "jetL", "injl", "take", "drop", "comp",
 RECURSIVE Cz(_)
 Cz(t) == IF \E k \in 2..(CmrN + 4) : t = TwoN(k) THEN <<"w", CHOOSE k \in 2..(CmrN + 4) : t = TwoN(k)>>
          ELSE IF t[1] \in {"+", "*"} THEN <<t[1], Cz(t[2]), Cz(t[3])>> ELSE t
-H == (Len(order) + Len(st.S.slab) * 3 + Len(st.S.el)) % EmitMod
+\* a spread-out sample: the construction order and the child indices weighted by position (sizes alone stay below a large modulus)
+RECURSIVE OrdSum(_)
+OrdSum(k) == IF k = 0 THEN 0 ELSE OrdSum(k - 1) + k * (7 * order[k] + 3 * dag[k][2] + 5 * dag[k][3])
+H == (OrdSum(Len(order)) + Len(st.S.slab) * 3 + Len(st.S.el)) % EmitMod
 Emit == (Done /\ H = 0) =>
   PrintT(<<"CASE", ToJson([dag |-> dag, prog |-> prog, order |-> order,
                            res |-> IF result[1] = "ok" THEN "ok" ELSE "reject",
